@@ -108,7 +108,9 @@ def extEncode (toks : List String) : Option String := do
   let ik ← optField toks "ik"
   let inn ← optField toks "in"
   let iu ← optField toks "iu"
-  let relays ← match relaysFrom stdEnv relaysB [] with
+  -- `Vec<RelayUrl> -> BTreeSet` goes through `FromIterator` (stable sort + dedup that keeps the LAST of
+  -- equal keys), unlike the element-wise `insert` of `from_raw` (keeps the first): reverse the input
+  let relays ← match relaysFrom stdEnv relaysB.reverse [] with
     | .ok r => some r
     | .error _ => none
   let x : Ext := { version := Generated.extCurrentVersion, gid := gid, name := name, desc := desc,
